@@ -556,6 +556,9 @@ def _dcog_samples():
             dict(shape=(100, 120), layout="yx", dtype="uint8", blocksize=[64], chunks=(64, 64), compression="NONE"),  # uncompressed tiles
             dict(shape=(33, 70), layout="syx", nsamples=2, dtype="float32", nodata=float("nan"), blocksize=[32], chunks=(33, 35), compression="NONE", spill_sz=1),  # wide tiles; last tile column as wide as a tile is tall
             dict(shape=(50, 96), layout="syx", nsamples=2, dtype="int16", blocksize=[(32, 64), (16, 32)], chunks=(32, 64)),
+            dict(shape=(272, 272), layout="yx", dtype="uint8", nodata=0, blocksize=[16], chunks=(64, 64)),  # padding to 2**levels adds a WHOLE tile row and column
+            dict(shape=(16, 1000), layout="yxs", nsamples=3, dtype="int16", blocksize=[16], chunks=(16, 100)),
+            dict(shape=(272, 300), layout="syx", nsamples=2, dtype="uint16", nodata=65535, blocksize=[16], chunks=(272, 300), compression="NONE"),
             dict(shape=(70, 90), layout="yx", dtype="int32", blocksize=[32], chunks=(32, 32), huge=True),  # band statistics with many digits
             dict(shape=(40, 40), layout="syx", nsamples=3, dtype="uint32", nodata=0, blocksize=[16], chunks=(16, 16), huge=True),
             dict(shape=(33, 47), layout="yxs", nsamples=3, dtype="float64", blocksize=[16], chunks=(33, 47), huge=True, compression="NONE"),
@@ -568,7 +571,7 @@ def _dcog_samples():
             yield dict(case=no_predictor_without_compression(one(i)))
             i += 1
 
-    return "14 fixed (incl. full-range int32 / uint32 and 1e300-sized float64 values) + 24 (quick) / 120 (thorough) pseudo-random combinations of 7 shapes (incl. single row / column, narrower than a tile) x YX / YXS / SYX x dtypes x nodata x block-size lists x compression (incl. none) / predictor x source chunking x spill size x writes per chunk x synchronous / threaded scheduler x CRS x rotated", gen()
+    return "17 fixed (incl. images whose padding adds whole tile rows / columns, full-range int32 / uint32 and 1e300-sized float64 values) + 24 (quick) / 120 (thorough) pseudo-random combinations of 7 shapes (incl. single row / column, narrower than a tile) x YX / YXS / SYX x dtypes x nodata x block-size lists x compression (incl. none) / predictor x source chunking x spill size x writes per chunk x synchronous / threaded scheduler x CRS x rotated", gen()
 
 
 def _dcog_oracle(args, run=None):
